@@ -9,11 +9,11 @@ func init() {
 		Assumptions: []string{"the Lua interpreter and the Redis model (SET NX/PX/PXAT, GET, DEL, PEXPIREAT with expiry by the virtual clock) are harness code", "invalidation pushes are delivered by the harness right after the modification they announce", "KeyMajority 2 (3 keys), default validity 5 s / extend interval 2.5 s"},
 		Trusted:     []string{"harness/luasym.go.txt"},
 		Outside:     []string{"mutual exclusion under lease expiry, clock skew and lost extensions with two or more contending lockers (only the fault-free hand-over of (2) is explored for two lockers)", "ForceWithContext, Close racing with holders", "events arriving while the holder is still acquiring its remaining keys in the background (TryWithContext returns at the majority): the locker counts a not-yet-attempted key as owned, so a key given up in that short window can leave it below a majority until the remaining attempt settles — observed while building this check, not claimed", "clock skew between client and server"},
-		Bounds:      map[string]any{"quick": "(1) 2 events, 1 transport fault, delay budget 0; (2) delay budget 1", "thorough": "(1) 3 events, 1 fault, delay budget 0; (2) delay budget 2"},
+		Bounds:      map[string]any{"quick": "(1) 2 events, 1 transport fault, delay budget 0; (2) delay budget 1", "thorough": "(1) 3 events, 1 fault, delay budget 0; (2) delay budget 1 (budget 2 did not finish in 20 minutes)"},
 		specs: func(tier string) []specRef {
 			r := hsd(lockPkg, "VerifC34_holder", P{"events": q(tier, int64(2), 3), "faults": 1}, 0, 3000000, 3000, "locked", "notlocked", "extended", "deleted", "takenover", "lost", "release", "released", "fault")
 			r.spec.Overrides = luaOverrides
-			h := hsd(lockPkg, "VerifC34_handover", nil, q(tier, 1, 2), 3000000, 3000, "parked", "handover")
+			h := hsd(lockPkg, "VerifC34_handover", nil, 1, 3000000, 3000, "parked", "handover")
 			h.spec.Overrides = luaOverrides
 			return []specRef{r, h}
 		},
